@@ -108,14 +108,19 @@ def oracle(sc, o):
         s4 = [(k, t) for kind, k, t in zip(g["arrivals"], g["arr_idx"], g["arr_t"]) if kind == "S4"]
         s4_t = s4[-1][1] if s4 else None
         after_end = last_t is not None and s4_t is not None and last_t[1] > s4_t   # the request landed in the exit sleep
-        how = request_kind(sc, s4[-1][0]) if after_end else ""
+        # requests made in the exit sleep(0) of _run (after the plan's last message)
+        s4_acts = [a for a in sc.get("script", {}).get(str(s4[-1][0]), [])] if s4 else []
+        st_at_s4 = "running"
+        for (a, b), t in zip(g["trans"], g["trans_t"]):
+            if s4_t is not None and t < s4_t:
+                st_at_s4 = b
         if foreign:
             want, why = "fail", f"unhandled {result[6:]}"
         elif last_t is None:
             want, why = "success", "normal completion"
         elif after_end:
             # the plan had ended (normally or by a control exception) when the request was accepted
-            want, why = EXPECT[last_t[0]], f"{last_t[0]} entered after the plan's end ({how})"
+            want, why = EXPECT[last_t[0]], f"{last_t[0]} entered after the plan's end"
         elif o["plan_finished"]:
             want, why = "success", f"the plan handled the {last_t[0]} request and completed on its own"
         else:
@@ -123,17 +128,21 @@ def oracle(sc, o):
         for d in stops:
             if d["exit"] != want:
                 if after_end:
-                    sig = f"exit-status-after-plan-end:{how}-at-S4:{d['exit']}-instead-of-{want}"
+                    # which request produced the last terminating state
+                    kinds = [a["a"] for a in s4_acts]
+                    req = {"halting": "halt", "stopping": "stop"}.get(last_t[0]) or ("abort" if "abort" in kinds else "suspend-unresumable" if "suspend" in kinds else "?")
+                    sig = f"exit-status-after-plan-end:{req}-request-at-S4:{d['exit']}-instead-of-{want}"
+                elif s4_acts and any(a["a"] == "abort" for a in s4_acts) and "abort" in o["refused"] and d["exit"] == "abort":
+                    sig = f"exit-status-after-plan-end:refused-abort-request-at-S4-while-{st_at_s4}:abort-instead-of-{want}"
                 elif foreign:
                     sig = f"exit-status:unhandled-{result[6:]}:{d['exit']}-instead-of-fail"
                 else:
                     sig = f"exit-status:{(last_t[0] if last_t else 'completion')}:{d['exit']}-instead-of-{want}"
-                bad.append((sig, f"{op}: engine-closed {d['run']} has exit_status {d['exit']!r}, expected {want!r} ({why}); reason {d['reason_text']!r}"))
+                bad.append((sig, f"{op}: engine-closed {d['run']} has exit_status {d['exit']!r}, expected {want!r} ({why}); reason {d['reason_text']!r}; requests in the exit sleep: {request_kind(sc, s4[-1][0]) if s4 else 'none'}"))
             if want == "fail" and d["exit"] == "fail" and d["reason_text"] != g["text"]:
                 bad.append((f"fail-reason-is-not-the-exception-text:{result[6:]}", f"{op} raised {result[6:]}({g['text']!r}) but the RunStop reason is {d['reason_text']!r}"))
             if d["exit"] != "fail" and d["reason_text"] not in ("", "requested"):
                 bad.append((f"stale-reason-on-{d['exit']}", f"{op}: RunStop of {d['run']} ({d['exit']}) carries reason {d['reason_text']!r}"))
-        # a refused abort must not leave traces
     return bad
 
 
